@@ -79,6 +79,11 @@ pub struct Prog {
     pub fault_budget: Option<u32>,
     /// matching calls that pass before the fault starts to fire
     pub fault_skip: u32,
+    /// before the program proper: a session with a 4 MiB memtable writes this many values that stay
+    /// in the WAL; the database is then opened with `cfg`, so that recovery cuts the WAL into
+    /// many level-0 tables (the only way to reach the level-0 slow-down / stop triggers in a short
+    /// program)
+    pub pre_wal_puts: usize,
     /// C08 under concurrency: judge the history as linearizable with failed calls optional, and
     /// after the run disarm the fault, reopen and require every acknowledged write to be there
     pub judge_under_fault: bool,
@@ -116,6 +121,7 @@ impl Prog {
             "directory_checked_after_final_compaction": self.final_directory,
             "fault_fires_at_most": self.fault_budget,
             "matching_calls_passing_before_the_fault": self.fault_skip,
+            "writes_left_in_the_wal_by_an_earlier_session_with_a_large_memtable": self.pre_wal_puts,
             "judged_under_fault_linearizable_and_durable_after_reopen": self.judge_under_fault,
         })
     }
@@ -326,6 +332,19 @@ fn prog_body(prog: &Prog, log: &Arc<Mutex<Vec<Event>>>, stale: &Arc<AtomicU64>) 
         fs.state().removal_clock = Some(&CLOCK);
         fs.state().snap_meta = prog.recover_at_meta;
         fs.state().snap_all = prog.recover_at_all_writes;
+    }
+    if prog.pre_wal_puts > 0 {
+        let big = crate::world::Cfg::new(4 << 20, prog.cfg.file, prog.cfg.block, false);
+        match DB::open(db_options(&fs, &big)) {
+            Ok(db0) => {
+                for i in 0..prog.pre_wal_puts {
+                    let k = prog.keys[i % prog.keys.len()].clone();
+                    let _ = db0.put(WriteOptions::default(), k, val(9000 + i as u16, 60));
+                }
+                drop(db0);
+            }
+            Err(e) => panic!("harness: pre-session open failed: {}", e),
+        }
     }
     let opts = db_options(&fs, &prog.cfg);
     let db = match DB::open(opts) {
